@@ -23,7 +23,7 @@
 From Coq Require Import NArith List Bool Arith.
 From FitV Require Import Model.Values Model.Bytes Model.Crc Model.IO Model.Header Model.Route Model.Decode Model.Components
   Gen.Consts Spec.CrcSpec Spec.Burst Spec.Integrity Spec.Grammar
-  Proofs.C04Crc Proofs.C04IO Proofs.C04Verdict Proofs.C04Corrupt Proofs.C04Header Proofs.C04Main Proofs.C04Examples.
+  Proofs.C04Crc Proofs.C04IO Proofs.C04Verdict Proofs.C04Corrupt Proofs.C04Header Proofs.C04Main Proofs.C04Agree Proofs.C04Examples.
 Import ListNotations.
 Local Open Scope N_scope.
 
@@ -121,6 +121,15 @@ Theorem C04_encode_integrity_ok : forall bs, is_bytes bs ->
 Proof. exact encode_integrity_ok. Qed.
 Print Assumptions C04_encode_integrity_ok.
 
+(* CRC verdicts agree: an IntegrityError returned by Decode (header checksum or file checksum) is the error
+   CheckIntegrity returns on the same bytes, under any two chunk schedules; record parsing never produces one *)
+Theorem C04_integrity_verdicts_agree : forall o g fuel rd r e, (measure rd < fuel)%nat ->
+  decode o MFull g rd fuel = TDone r -> dr_err r = Some e -> is_integrity e = true ->
+  forall o2 g2 fuel2 rd2, rd_data rd2 = rd_data rd -> (measure rd2 < fuel2)%nat ->
+  exists r2, decode o2 MCrcOnly g2 rd2 fuel2 = TDone r2 /\ dr_err r2 = Some e.
+Proof. exact integrity_verdicts_agree. Qed.
+Print Assumptions C04_integrity_verdicts_agree.
+
 (* ------------------------------------------------------------------ (c) corruption => both reject *)
 
 Theorem C04_corruption_detected : forall bs tm off p, is_bytes bs ->
@@ -214,3 +223,10 @@ Example C04_ex_header :
    is_bytes (firstn 14 bad) /\ b_at bad 0 = 14 /\ stored_hdr_crc bad <> 0 /\ arc (firstn 12 bad) <> stored_hdr_crc bad /\
    header_stage_with arc bad TEOF = Some EHdrCRC /\ header_check_integrity (parse_header bad) = Some true).
 Proof. exact ex_header. Qed.
+
+(* hypotheses of C04_integrity_verdicts_agree: ex12 with its last checksum byte changed parses to the end and Decode
+   returns the file-checksum IntegrityError *)
+Example C04_ex_integrity_error :
+  exists r, decode no_opts MFull g_init (ex_rd (xorl ex12 (burst 25 192 1))) 40 = TDone r /\ dr_err r = Some EFileCRC /\
+            is_integrity EFileCRC = true /\ (measure (ex_rd (xorl ex12 (burst 25 192 1))) < 40)%nat.
+Proof. exact ex_integrity_error. Qed.
